@@ -87,7 +87,7 @@ func gen(a vh.Args) {
 	defer info.Close()
 	for i := 0; i < n; i++ {
 		seed := a.Seed*1000 + uint64(i)
-		r := vh.NewRand(seed)
+		r := subRand(seed, 1)
 		cfg := histCfg{
 			name:      fmt.Sprintf("h%d_%d", a.Seed, i),
 			seed:      seed,
